@@ -486,4 +486,7 @@ func genC02(g *Gen) {
 		g.Emit(0x0202, L(NI(r.Intn(2)), StatSx(s), StatSx(t)), true, "samefile-random")
 	}
 	_ = strings.Join
+
+	// (e) the real DiskWriter behind the real diff on a scratch directory (see c05.go)
+	genRecvCases(g, 0x0203, g.Vol(500, 8000), false)
 }
